@@ -36,7 +36,7 @@ def _sorted_items(a_dict):
 def LabelledMismatches(mismatches, details=None):
     """A collection of mismatches, each labelled."""
     return MismatchesAll(
-        (PrefixedMismatch(k, v) for (k, v) in _sorted_items(mismatches)), wrap=False
+        [PrefixedMismatch(k, v) for (k, v) in _sorted_items(mismatches)], wrap=False
     )
 
 
